@@ -107,6 +107,7 @@ PROPERTIES = {
 
 NOT_APPLICABLE = {
     'C05': "JSON round trip lives in serde-generic Serialize/Visitor impls and string formatting; no contract within reach of Verus or Kani can express equality of two stores across serde_json (DESIGN.md §6)",
+    'C09': "Totality of Query::parse is a statement about byte-index slicing of &str and the print/parse fixpoint about fmt output; neither is expressible over Verus's str model and CBMC is intractable on the parser. The narrow unit planned for numeric-literal classification was not built: the panic it targeted was found by reading, replayed and repaired (fix commit 0b1659c, DESIGN.md sections 6 and 8)",
     'C11': "CBOR round trip is derive-generated minicbor code (#[derive(Encode, Decode)] + #[n(k)]); the code that matters is macro output, outside both verifiers (DESIGN.md §6)",
     'C15': "CSV column packing is String concatenation and the csv crate; no String-content reasoning in Verus, intractable in CBMC (DESIGN.md §6)",
     'C16': "Transposition is a 450-line algorithm over high-level API values holding &AnnotationStore; its arithmetic kernels are covered under C04/C13 (DESIGN.md §6)",
